@@ -1,5 +1,5 @@
 (* C12 - proofs. *)
-From CfdmV Require Import Common.Base Common.PySlice C03.Model C03.Lemmas C12.Model C12.Spec.
+From CfdmV Require Import Common.Base Common.PySlice C03.Model C03.Lemmas C12.Model C12.Spec Tables.C12Unpack.
 Open Scope Z_scope.
 
 Ltac splits := repeat match goal with |- _ /\ _ => split end.
@@ -41,7 +41,7 @@ Qed.
 Lemma sub_scan C dk c idx o :
   c_close_on_error C = true -> scan o (snd (sub C dk c idx)) = Some o.
 Proof.
-  intros Hc. destruct c as [f v sh|sh a]; simpl; [|reflexivity].
+  intros Hc. destruct c as [f v sh d|sh d a]; simpl; [|reflexivity].
   destruct (parse_indices sh idx) as [ps|e]; [|reflexivity].
   pose proof (fa_get_scan C dk f v sh ps o Hc) as H.
   destruct (fa_get C dk f v sh ps) as [r t]. exact H.
@@ -50,7 +50,7 @@ Qed.
 Lemma realise_scan C dk c o :
   c_close_on_error C = true -> scan o (snd (realise C dk c)) = Some o.
 Proof.
-  intros Hc. destruct c as [f v sh|sh a]; simpl; [|reflexivity].
+  intros Hc. destruct c as [f v sh d|sh d a]; simpl; [|reflexivity].
   pose proof (fa_get_scan C dk f v sh (full_ps sh) o Hc) as H.
   destruct (fa_get C dk f v sh (full_ps sh)) as [r t]. exact H.
 Qed.
@@ -68,27 +68,28 @@ Proof.
     destruct (sub C dk c idx) as [[c'|e] t]; exact H.
   - destruct (nth_error h i) as [c|]; [|reflexivity].
     pose proof (realise_scan C dk c o Hc) as H.
-    destruct (realise C dk c) as [[a|e] t]; exact H.
+    destruct (realise C dk c) as [[[d a]|e] t]; exact H.
   - destruct (nth_error h i) as [c|]; [|reflexivity].
     pose proof (realise_scan C dk c o Hc) as H.
-    destruct (realise C dk c) as [[a|e] t]; exact H.
+    destruct (realise C dk c) as [[[d a]|e] t]; exact H.
   - destruct (nth_error h i) as [c|]; [|reflexivity].
     destruct (parse_indices (cshape c) idx) as [ps0|e0]; [|reflexivity].
     pose proof (realise_scan C dk c o Hc) as H.
-    destruct (realise C dk c) as [[a|e] t]; [|exact H].
+    destruct (realise C dk c) as [[[d a]|e] t]; [|exact H].
     destruct (setitem _ _ _ _ _); exact H.
   - destruct (nth_error h i) as [c|]; [|reflexivity].
     pose proof (sub_scan C dk c (map (fun _ => ISlice (Some 0) (Some 1) (Some 1)) (cshape c)) o Hc) as H.
     destruct (sub C dk c _) as [[c'|e] t]; [|exact H].
-    destruct c' as [? ? ?|? a]; [exact H|]. destruct (flatten a) as [|x [|y r]]; exact H.
+    destruct c' as [? ? ? ?|? ? a]; [exact H|]. destruct (flatten a) as [|x [|y r]]; exact H.
   - destruct (nth_error h i) as [c1|]; [|reflexivity].
     destruct (nth_error h j) as [c2|]; [|reflexivity].
     destruct (Nat.eqb i j); [reflexivity|].
     destruct (negb _); [reflexivity|].
+    destruct (negb _); [reflexivity|].
     pose proof (realise_scan C dk c1 o Hc) as H1.
-    destruct (realise C dk c1) as [[a1|e1] t1]; [|exact H1].
+    destruct (realise C dk c1) as [[[d1 a1]|e1] t1]; [|exact H1].
     pose proof (realise_scan C dk c2 o Hc) as H2.
-    destruct (realise C dk c2) as [[a2|e2] t2]; cbn [snd] in *;
+    destruct (realise C dk c2) as [[[d2 a2]|e2] t2]; cbn [snd] in *;
       rewrite scan_app, H1; exact H2.
 Qed.
 
@@ -184,54 +185,159 @@ Proof.
 Qed.
 
 (* ------------------------------------------------------------------------- *)
+(* the Gallina data types and unpacking are numpy's and netcdf_indexer's       *)
+(* ------------------------------------------------------------------------- *)
+Definition promote_row_ok (r : Z * Z * Z) : bool :=
+  let '(a, b, c) := r in dt_code (promote (dt_of_code a) (dt_of_code b)) =? c.
+
+Definition attr_of_row (x : option (Z * Z)) : option (dt * Z) :=
+  match x with Some (c, z) => Some (dt_of_code c, z) | None => None end.
+
+Definition pack_of_row (uns : bool) (sf ao : option (Z * Z)) : pack :=
+  {| p_unsigned := uns; p_scale := attr_of_row sf; p_offset := attr_of_row ao |}.
+
+Definition unpack_row_ok (r : Z * bool * option (Z * Z) * option (Z * Z) * Z * list Z * list Z) : bool :=
+  let '(v, uns, sf, ao, got, raw, vals) := r in
+  let p := pack_of_row uns sf ao in
+  (dt_code (realised_dt (dt_of_code v) p) =? got) &&
+  list_eqb Z.eqb (map (unpack_z (dt_of_code v) p) raw) vals.
+
+Lemma promote_table_sweep : forallb promote_row_ok numpy_promote_table = true.
+Proof. vm_compute. reflexivity. Qed.
+
+Lemma unpack_table_sweep : forallb unpack_row_ok indexer_unpack_table = true.
+Proof. vm_compute. reflexivity. Qed.
+
+Lemma list_eqb_Z_eq l1 l2 : list_eqb Z.eqb l1 l2 = true -> l1 = l2.
+Proof.
+  revert l2; induction l1 as [|x r IH]; intros [|y s]; simpl; intros H; try discriminate; [reflexivity|].
+  apply andb_true_iff in H. destruct H as [H1 H2]. apply Z.eqb_eq in H1. subst. f_equal. apply IH. exact H2.
+Qed.
+
+(* numpy.promote_types, on every pair of the ten types *)
+Theorem promote_is_numpy a b c :
+  In (a, b, c) numpy_promote_table -> dt_code (promote (dt_of_code a) (dt_of_code b)) = c.
+Proof.
+  intros H. pose proof promote_table_sweep as S. rewrite forallb_forall in S.
+  specialize (S _ H). simpl in S. apply Z.eqb_eq. exact S.
+Qed.
+
+(* netcdf_indexer, on every variable type x _Unsigned x scale_factor x add_offset:
+   the type of the array it returns (also for an empty array), and the values *)
+Theorem unpack_is_indexer v uns sf ao got raw vals :
+  In (v, uns, sf, ao, got, raw, vals) indexer_unpack_table ->
+  dt_code (realised_dt (dt_of_code v) (pack_of_row uns sf ao)) = got /\
+  map (unpack_z (dt_of_code v) (pack_of_row uns sf ao)) raw = vals.
+Proof.
+  intros H. pose proof unpack_table_sweep as S. rewrite forallb_forall in S.
+  specialize (S _ H). cbn beta iota in S. apply andb_true_iff in S. destruct S as [S1 S2].
+  split; [apply Z.eqb_eq; exact S1|apply list_eqb_Z_eq; exact S2].
+Qed.
+
+Lemma unpack_table_nonempty :
+  8000 < Z.of_nat (length indexer_unpack_table) /\ length numpy_promote_table = 100%nat.
+Proof. vm_compute. split; reflexivity. Qed.
+
+Local Opaque numpy_promote_table indexer_unpack_table.
+
+(* ------------------------------------------------------------------------- *)
+(* unpacking is elementwise: a part of the unpacked array is the unpacked part *)
+(* ------------------------------------------------------------------------- *)
+Lemma nd_ind' (P : nd -> Prop) :
+  (forall v, P (Leaf v)) -> (forall l, Forall P l -> P (Node l)) -> forall a, P a.
+Proof.
+  intros HL HN. fix IH 1. intros [v|l]; [apply HL|]. apply HN.
+  induction l as [|x r IHl]; constructor; [apply IH|exact IHl].
+Qed.
+
+Lemma take_nd_map g d pos a : take d pos (nd_map g a) = nd_map g (take d pos a).
+Proof.
+  revert d. induction a as [v|l IHl] using nd_ind'; intros d; [destruct d; reflexivity|].
+  destruct d as [|d]; simpl; f_equal; rewrite !map_map.
+  - apply map_ext. intros i. change dummy with (nd_map g dummy) at 1. apply map_nth.
+  - apply map_ext_in. intros x Hx. rewrite Forall_forall in IHl. apply IHl. exact Hx.
+Qed.
+
+Lemma take_all_nd_map g ops a : take_all ops (nd_map g a) = nd_map g (take_all ops a).
+Proof.
+  unfold take_all. revert a. induction ops as [|op r IH]; intros a; simpl; [reflexivity|].
+  rewrite take_nd_map. apply IH.
+Qed.
+
+Theorem orth_take_nd_map g poss a : orth_take poss (nd_map g a) = nd_map g (orth_take poss a).
+Proof. apply take_all_nd_map. Qed.
+
+Lemma flatten_nd_map g a : flatten (nd_map g a) = map g (flatten a).
+Proof.
+  induction a as [v|l IHl] using nd_ind'; [reflexivity|]. simpl.
+  induction l as [|x r IHr]; [reflexivity|]. simpl. inversion IHl; subst.
+  rewrite map_app. f_equal; auto.
+Qed.
+
+(* ------------------------------------------------------------------------- *)
 (* the machine computes the eager specification                                *)
 (* ------------------------------------------------------------------------- *)
-(* an object on disk refers to a well-shaped stored array of its own shape *)
+(* an object on disk refers to a well-shaped stored variable of its own shape,
+   and the data type it declares is the type the data will have in memory *)
 Definition cell_ok (dk : disk) (c : cell) : Prop :=
   match c with
-  | OnDisk f v sh => Forall (fun n => 0 <= n) sh /\
-                     forall a, dk f v = Some a -> shaped (map Z.to_nat sh) a
-  | InMem _ _ => True
+  | OnDisk f v sh d => Forall (fun n => 0 <= n) sh /\
+                       forall st, dk f v = Some st ->
+                         shaped (map Z.to_nat sh) (s_raw st) /\ d = s_realised st
+  | InMem _ _ _ => True
   end.
 
 (* the backend returns what orthogonal selection returns, on the stored arrays *)
 Definition fetch_ok (C : cfg) (dk : disk) : Prop :=
-  forall f v a poss, dk f v = Some a -> c_fetch C a poss = orth_take poss a.
+  forall f v st poss, dk f v = Some st -> c_fetch C (s_raw st) poss = orth_take poss (s_raw st).
+
+Lemma vshape_val dk c : vshape (val dk c) = cshape c.
+Proof. destruct c as [f v sh d|sh d a]; simpl; [destruct (dk f v)|]; reflexivity. Qed.
+
+Lemma vdtype_val dk c : cell_ok dk c -> vdtype (val dk c) = cdtype c.
+Proof.
+  destruct c as [f v sh d|sh d a]; simpl; [|reflexivity]. intros [_ H].
+  destruct (dk f v) as [st|]; [|reflexivity]. destruct (H st eq_refl) as [_ E]. subst d. reflexivity.
+Qed.
 
 Lemma realise_spec C dk c :
-  cell_ok dk c -> fetch_ok C dk -> fst (realise C dk c) = vreal (val dk c).
+  cell_ok dk c -> fetch_ok C dk ->
+  fst (realise C dk c) =
+  match vreal (val dk c) with Ok a => Ok (vdtype (val dk c), a) | Err e => Err e end.
 Proof.
-  intros Hok Hf. destruct c as [f v sh|sh a]; [|reflexivity].
-  unfold realise, vreal, val, fa_get. cbn [cshape content snd].
+  intros Hok Hf. destruct c as [f v sh d|sh d a]; [|reflexivity].
+  unfold realise, vreal, val, fa_get.
   destruct Hok as [Hnn Hsh].
-  destruct (dk f v) as [a|] eqn:E; [|reflexivity].
-  rewrite positions_all_full by exact Hnn. cbn [fst snd rbind].
-  rewrite (Hf f v a _ E).
+  destruct (dk f v) as [st|] eqn:E; [|reflexivity].
+  rewrite positions_all_full by exact Hnn. cbn [fst snd rbind vdtype].
+  rewrite (Hf f v st _ E).
   rewrite <- (map_map Z.to_nat (fun n => seq 0 n)).
-  rewrite orth_take_full by (apply Hsh; reflexivity). reflexivity.
+  rewrite orth_take_full by (apply (Hsh st eq_refl)). reflexivity.
 Qed.
 
 Lemma sub_spec C dk c idx :
   fetch_ok C dk ->
   fst (sub C dk c idx) =
   match vget (val dk c) idx with
-  | Ok (sh, Some a) => Ok (InMem sh a)
-  | Ok (_, None) => Err OtherErr
+  | Ok (sh, d, Some a) => Ok (InMem sh d a)
+  | Ok (_, _, None) => Err OtherErr
   | Err e => Err e
   end.
 Proof.
-  intros Hf. destruct c as [f v sh|sh a]; unfold sub, vget, val; cbn [cshape content fst snd].
-  - destruct (parse_indices sh idx) as [ps|e]; [|reflexivity].
-    unfold fa_get. destruct (dk f v) as [a|] eqn:E; [|reflexivity].
-    destruct (positions_all sh ps) as [poss|e]; [|reflexivity].
-    cbn [fst snd rbind]. rewrite (Hf f v a poss E). reflexivity.
-  - unfold getitem. destruct (parse_indices sh idx) as [ps|e]; [|reflexivity].
+  intros Hf. destruct c as [f v sh d|sh d a]; unfold sub, vget, val.
+  - unfold fa_get. destruct (dk f v) as [st|] eqn:E; cbn [vshape vdtype fst snd].
+    + destruct (parse_indices sh idx) as [ps|e]; [|reflexivity].
+      destruct (positions_all sh ps) as [poss|e]; [|reflexivity].
+      cbn [fst snd rbind to_cell]. rewrite (Hf f v st poss E).
+      unfold s_unpacked. rewrite orth_take_nd_map. reflexivity.
+    + destruct (parse_indices sh idx) as [ps|e]; reflexivity.
+  - cbn [vshape vdtype fst snd]. unfold getitem. destruct (parse_indices sh idx) as [ps|e]; [|reflexivity].
     cbn [rbind]. destruct (positions_all sh ps) as [poss|e]; reflexivity.
 Qed.
 
-Lemma vget_some vc idx sh o : vget vc idx = Ok (sh, o) -> exists a, o = Some a.
+Lemma vget_some vc idx sh d o : vget vc idx = Ok (sh, d, o) -> exists a, o = Some a.
 Proof.
-  unfold vget. destruct (parse_indices (fst vc) idx); [|discriminate].
+  unfold vget. destruct (parse_indices (vshape vc) idx); [|discriminate].
   destruct (snd vc); [|discriminate]. destruct (positions_all _ _); [|discriminate].
   intros H; inversion H; eauto.
 Qed.
@@ -256,6 +362,19 @@ Qed.
 Lemma Forall_nth_error {A} (P : A -> Prop) l i x : Forall P l -> nth_error l i = Some x -> P x.
 Proof. intros H E. rewrite Forall_forall in H. apply H. eapply nth_error_In; eauto. Qed.
 
+(* what realise gives, in terms of the eager value of the object *)
+Lemma realise_cases C dk c :
+  cell_ok dk c -> fetch_ok C dk ->
+  (exists a t, realise C dk c = (Ok (cdtype c, a), t) /\ val dk c = (cshape c, cdtype c, Some a)) \/
+  (exists e t, realise C dk c = (Err e, t) /\ vreal (val dk c) = Err e).
+Proof.
+  intros Hok Hf. pose proof (realise_spec C dk c Hok Hf) as Hr.
+  pose proof (vdtype_val dk c Hok) as Hd. pose proof (vshape_val dk c) as Hs.
+  destruct (realise C dk c) as [r t]. cbn [fst] in Hr. subst r.
+  destruct (val dk c) as [[sh d] o]. unfold vreal, vdtype, vshape in *. cbn [fst snd] in *. subst.
+  destruct o as [a|]; [left|right]; eauto.
+Qed.
+
 (* one operation: same observation as the specification, and the values of the
    new heap are the specification's new heap *)
 Lemma step_denote C dk h op :
@@ -271,51 +390,52 @@ Proof.
   - destruct (nth_error h i) as [c|] eqn:E; simpl; [|auto].
     pose proof (sub_spec C dk c idx Hf) as Hs.
     destruct (sub C dk c idx) as [[c'|e] t]; cbn [fst] in Hs.
-    + destruct (vget (val dk c) idx) as [[sh [a|]]|e']; try discriminate.
+    + destruct (vget (val dk c) idx) as [[[sh d] [a|]]|e']; try discriminate.
       inversion Hs; subst c'. split; [rewrite map_app; reflexivity|].
       apply Forall_app; split; [exact Hok|constructor; [exact I|constructor]].
-    + destruct (vget (val dk c) idx) as [[sh [a|]]|e'] eqn:Ev; try discriminate.
+    + destruct (vget (val dk c) idx) as [[[sh d] [a|]]|e'] eqn:Ev; try discriminate.
       * apply vget_some in Ev. destruct Ev; discriminate.
       * inversion Hs; subst. auto.
   - destruct (nth_error h i) as [c|] eqn:E; simpl; [|auto].
     assert (Hc : cell_ok dk c) by (eapply Forall_nth_error; eauto).
-    pose proof (realise_spec C dk c Hc Hf) as Hr.
-    destruct (realise C dk c) as [[a|e] t]; cbn [fst] in Hr; rewrite <- Hr.
-    + split; [rewrite map_set_at; reflexivity|]. apply Forall_set_at; [exact I|exact Hok].
+    destruct (realise_cases C dk c Hc Hf) as [[a [t [Hr Hv]]]|[e [t [Hr Hv]]]]; rewrite Hr, ?Hv.
+    + unfold vreal. cbn [fst snd]. split; [rewrite map_set_at; reflexivity|].
+      apply Forall_set_at; [exact I|exact Hok].
     + auto.
   - destruct (nth_error h i) as [c|] eqn:E; simpl; [|auto].
     assert (Hc : cell_ok dk c) by (eapply Forall_nth_error; eauto).
-    pose proof (realise_spec C dk c Hc Hf) as Hr.
-    destruct (realise C dk c) as [[a|e] t]; cbn [fst] in Hr; rewrite <- Hr; auto.
+    destruct (realise_cases C dk c Hc Hf) as [[a [t [Hr Hv]]]|[e [t [Hr Hv]]]]; rewrite Hr, ?Hv; auto.
   - destruct (nth_error h i) as [c|] eqn:E; simpl; [|auto].
     assert (Hc : cell_ok dk c) by (eapply Forall_nth_error; eauto).
+    rewrite vshape_val.
     destruct (parse_indices (cshape c) idx) as [ps|e]; [|auto].
-    pose proof (realise_spec C dk c Hc Hf) as Hr.
-    destruct (realise C dk c) as [[a|e] t]; cbn [fst] in Hr; rewrite <- Hr; [|auto].
+    destruct (realise_cases C dk c Hc Hf) as [[a [t [Hr Hv]]]|[e [t [Hr Hv]]]]; rewrite Hr, ?Hv; [|auto].
+    unfold vreal, vdtype. cbn [fst snd].
     destruct (setitem _ _ _ _ _) as [a'|e]; [|auto].
     split; [rewrite map_set_at; reflexivity|]. apply Forall_set_at; [exact I|exact Hok].
   - destruct (nth_error h i) as [c|] eqn:E; simpl; [|auto].
+    rewrite vshape_val.
     pose proof (sub_spec C dk c (map (fun _ => ISlice (Some 0) (Some 1) (Some 1)) (cshape c)) Hf) as Hs.
     destruct (sub C dk c _) as [[c'|e] t]; cbn [fst] in Hs.
-    + destruct (vget (val dk c) _) as [[sh [a|]]|e']; try discriminate.
+    + destruct (vget (val dk c) _) as [[[sh d] [a|]]|e']; try discriminate.
       inversion Hs; subst c'. destruct (flatten a) as [|x [|y r]]; auto.
-    + destruct (vget (val dk c) _) as [[sh [a|]]|e'] eqn:Ev; try discriminate.
+    + destruct (vget (val dk c) _) as [[[sh d] [a|]]|e'] eqn:Ev; try discriminate.
       * apply vget_some in Ev. destruct Ev; discriminate.
       * inversion Hs; subst. auto.
   - destruct (nth_error h i) as [c1|] eqn:E1; simpl; [|auto].
     destruct (nth_error h j) as [c2|] eqn:E2; simpl; [|auto].
     destruct (Nat.eqb i j); [auto|].
-    destruct (negb _); [auto|].
     assert (Hc1 : cell_ok dk c1) by (eapply Forall_nth_error; eauto).
     assert (Hc2 : cell_ok dk c2) by (eapply Forall_nth_error; eauto).
-    pose proof (realise_spec C dk c1 Hc1 Hf) as Hr1.
-    destruct (realise C dk c1) as [[a1|e] t1]; cbn [fst] in Hr1; rewrite <- Hr1; [|auto].
-    pose proof (realise_spec C dk c2 Hc2 Hf) as Hr2.
-    destruct (realise C dk c2) as [[a2|e] t2]; cbn [fst] in Hr2; rewrite <- Hr2; auto.
+    rewrite !vshape_val, !vdtype_val by assumption.
+    destruct (negb (list_eqb _ _ _)); [auto|].
+    destruct (negb (dt_eqb _ _)); [auto|].
+    destruct (realise_cases C dk c1 Hc1 Hf) as [[a1 [t1 [Hr1 Hv1]]]|[e [t1 [Hr1 Hv1]]]]; rewrite Hr1, ?Hv1; [|auto].
+    destruct (realise_cases C dk c2 Hc2 Hf) as [[a2 [t2 [Hr2 Hv2]]]|[e [t2 [Hr2 Hv2]]]]; rewrite Hr2, ?Hv2; auto.
 Qed.
 
 (* every history: lazy access through either backend shows exactly what eager
-   access to the arrays shows *)
+   access to the arrays shows - values, shapes and data types *)
 Theorem run_denote C dk h ops :
   Forall (cell_ok dk) h -> fetch_ok C dk ->
   map fst (run C dk h ops) = vrun (map (val dk) h) ops.
@@ -326,16 +446,23 @@ Proof.
   rewrite Hv. simpl. f_equal. apply IH. exact Hok'.
 Qed.
 
-(* eager heap *)
-Lemma val_eager dk c : val dk (eager_cell dk c) = val dk c.
+Lemma step_keeps_ok C dk h o :
+  Forall (cell_ok dk) h -> fetch_ok C dk -> Forall (cell_ok dk) (fst (fst (step C dk h o))).
 Proof.
-  destruct c as [f v sh|sh a]; [|reflexivity]. unfold eager_cell, val.
+  intros Hok Hf. pose proof (step_denote C dk h o Hok Hf) as Hs.
+  destruct (step C dk h o) as [[h' ob] t]. destruct Hs; assumption.
+Qed.
+
+(* eager heap *)
+Lemma val_eager dk c : cell_ok dk c -> val dk (eager_cell dk c) = val dk c.
+Proof.
+  destruct c as [f v sh d|sh d a]; [|reflexivity]. unfold eager_cell, val. intros _.
   destruct (dk f v) eqn:E; simpl; rewrite ?E; reflexivity.
 Qed.
 
 Lemma cell_ok_eager dk c : cell_ok dk c -> cell_ok dk (eager_cell dk c).
 Proof.
-  destruct c as [f v sh|sh a]; [|auto]. unfold eager_cell.
+  destruct c as [f v sh d|sh d a]; [|auto]. unfold eager_cell.
   destruct (dk f v); [intros _; exact I|auto].
 Qed.
 
@@ -344,7 +471,8 @@ Theorem lazy_eq_eager C dk h ops :
   map fst (run C dk h ops) = map fst (run C dk (map (eager_cell dk) h) ops).
 Proof.
   intros Hok Hf. rewrite !run_denote; auto.
-  - rewrite map_map. f_equal. apply map_ext. intros c. symmetry. apply val_eager.
+  - rewrite map_map. f_equal. apply map_ext_in. intros c Hc. symmetry. apply val_eager.
+    rewrite Forall_forall in Hok. auto.
   - apply Forall_forall. intros c Hc. apply in_map_iff in Hc as [c0 [E Hin]]. subst c.
     apply cell_ok_eager. rewrite Forall_forall in Hok. auto.
 Qed.
@@ -358,28 +486,26 @@ Proof.
   intros Hok Hf Hc. rewrite !run_denote; auto.
   - f_equal. simpl. destruct (nth_error h i) as [c|] eqn:E; [|reflexivity].
     assert (Hck : cell_ok dk c) by (eapply Forall_nth_error; eauto).
-    pose proof (realise_spec C dk c Hck Hf) as Hr.
-    destruct (realise C dk c) as [[a|e] t]; cbn [fst] in Hr; [|reflexivity].
-    rewrite map_set_at. unfold vreal, val in Hr. cbn [snd] in Hr.
-    destruct (content dk c) as [a'|] eqn:Ec; [|discriminate]. inversion Hr; subst a'.
-    clear -E Ec. revert i E. induction h as [|x r IH]; intros [|i] E; simpl in *; try discriminate.
-    + inversion E; subst. unfold val at 1. simpl. unfold val. rewrite Ec. reflexivity.
+    destruct (realise_cases C dk c Hck Hf) as [[a [t [Hr Hv]]]|[e [t [Hr Hv]]]]; rewrite Hr; [|reflexivity].
+    rewrite map_set_at. cbn [val]. rewrite <- Hv.
+    clear -E. revert i E. induction h as [|x r IH]; intros [|i] E; simpl in *; try discriminate.
+    + inversion E; subst. reflexivity.
     + f_equal. apply IH. exact E.
-  - pose proof (step_denote C dk h (OToMem i) Hok Hf) as Hs. simpl in *.
-    destruct (nth_error h i) as [c|]; [|exact Hok].
-    destruct (realise C dk c) as [[a|e] t]; [|exact Hok]. destruct Hs; assumption.
+  - pose proof (step_keeps_ok C dk h (OToMem i) Hok Hf) as H. cbn [run_heap].
+    destruct (step C dk h (OToMem i)) as [[h' ob] t]. exact H.
 Qed.
 
 (* subspace-then-realise = realise-then-subspace *)
-Theorem subspace_commutes C dk c idx a :
-  cell_ok dk c -> fetch_ok C dk -> fst (realise C dk c) = Ok a ->
-  fst (sub C dk c idx) = fst (sub C dk (InMem (cshape c) a) idx).
+Theorem subspace_commutes C dk c idx d a :
+  cell_ok dk c -> fetch_ok C dk -> fst (realise C dk c) = Ok (d, a) ->
+  fst (sub C dk c idx) = fst (sub C dk (InMem (cshape c) d a) idx).
 Proof.
   intros Hok Hf Hr. rewrite !sub_spec by exact Hf.
-  rewrite (realise_spec C dk c Hok Hf) in Hr. unfold vreal, val in Hr. cbn [snd] in Hr.
-  destruct (content dk c) as [a'|] eqn:Ec; [|discriminate]. inversion Hr; subst a'.
-  unfold val. cbn [cshape content]. rewrite Ec. reflexivity.
+  destruct (realise_cases C dk c Hok Hf) as [[a' [t [Hr' Hv]]]|[e [t [Hr' Hv]]]];
+    rewrite Hr' in Hr; cbn [fst] in Hr; [|discriminate].
+  inversion Hr; subst. rewrite Hv. reflexivity.
 Qed.
+
 
 (* ------------------------------------------------------------------------- *)
 (* fetch only what is asked                                                    *)
@@ -422,28 +548,29 @@ Proof.
     + eapply IH; eauto.
 Qed.
 
-Theorem sub_fetch_only C dk f v sh idx r t :
-  Forall (fun n => 0 <= n) sh -> sub C dk (OnDisk f v sh) idx = (r, t) ->
+Theorem sub_fetch_only C dk f v sh d idx r t :
+  Forall (fun n => 0 <= n) sh -> sub C dk (OnDisk f v sh d) idx = (r, t) ->
   match r with
-  | Ok c' => exists ps poss a,
-      parse_indices sh idx = Ok ps /\ positions_all sh ps = Ok poss /\ dk f v = Some a /\
+  | Ok c' => exists ps poss st,
+      parse_indices sh idx = Ok ps /\ positions_all sh ps = Ok poss /\ dk f v = Some st /\
       t = [EOpen f; EFetch f v poss; EClose f] /\
-      c' = InMem (zshape (map (@length nat) poss)) (c_fetch C a poss) /\
+      c' = InMem (zshape (map (@length nat) poss)) (s_realised st)
+                 (nd_map (unpack_val (s_dt st) (s_pack st)) (c_fetch C (s_raw st) poss)) /\
       Forall2 (fun n p => Forall (fun i => Z.of_nat i < n) p) sh poss
   | Err _ => fetches t = []
   end.
 Proof.
   intros Hnn. unfold sub. destruct (parse_indices sh idx) as [ps|e] eqn:Ep.
-  - unfold fa_get. destruct (dk f v) as [a|] eqn:Ed.
+  - unfold fa_get. destruct (dk f v) as [st|] eqn:Ed.
     + destruct (positions_all sh ps) as [poss|e] eqn:Epos; intros H; inversion H; subst; clear H.
-      * simpl. exists ps, poss, a. splits; auto.
+      * simpl. exists ps, poss, st. splits; auto.
         eapply positions_all_in_range; eauto. eapply parse_indices_length; eauto.
       * simpl. destruct (c_close_on_error C); reflexivity.
     + intros H; inversion H; subst. reflexivity.
   - intros H; inversion H; subst. reflexivity.
 Qed.
 
-Lemma sub_in_memory C dk sh a idx : snd (sub C dk (InMem sh a) idx) = [].
+Lemma sub_in_memory C dk sh d a idx : snd (sub C dk (InMem sh d a) idx) = [].
 Proof. reflexivity. Qed.
 
 (* ------------------------------------------------------------------------- *)
@@ -451,7 +578,7 @@ Proof. reflexivity. Qed.
 (* ------------------------------------------------------------------------- *)
 Definition same_backend (C1 C2 : cfg) (dk : disk) : Prop :=
   c_close_on_error C1 = c_close_on_error C2 /\
-  forall f v a poss, dk f v = Some a -> c_fetch C1 a poss = c_fetch C2 a poss.
+  forall f v st poss, dk f v = Some st -> c_fetch C1 (s_raw st) poss = c_fetch C2 (s_raw st) poss.
 
 Lemma fa_get_blind C1 C2 dk f v sh ps :
   same_backend C1 C2 dk -> fa_get C1 dk f v sh ps = fa_get C2 dk f v sh ps.
@@ -462,14 +589,14 @@ Qed.
 
 Lemma sub_blind C1 C2 dk c idx : same_backend C1 C2 dk -> sub C1 dk c idx = sub C2 dk c idx.
 Proof.
-  intros H. destruct c as [f v sh|sh a]; [|reflexivity]. unfold sub.
+  intros H. destruct c as [f v sh d|sh d a]; [|reflexivity]. unfold sub.
   destruct (parse_indices sh idx) as [ps|e]; [|reflexivity].
   rewrite (fa_get_blind C1 C2 dk f v sh ps H). reflexivity.
 Qed.
 
 Lemma realise_blind C1 C2 dk c : same_backend C1 C2 dk -> realise C1 dk c = realise C2 dk c.
 Proof.
-  intros H. destruct c as [f v sh|sh a]; [|reflexivity]. unfold realise.
+  intros H. destruct c as [f v sh d|sh d a]; [|reflexivity]. unfold realise.
   rewrite (fa_get_blind C1 C2 dk f v sh _ H). reflexivity.
 Qed.
 
@@ -584,8 +711,8 @@ Proof. split; [reflexivity|]. intros f v a poss _. symmetry. apply h5_is_nc4. Qe
 (* ------------------------------------------------------------------------- *)
 (* read                                                                        *)
 (* ------------------------------------------------------------------------- *)
-Lemma realise_fetches C dk f v sh fv vv p :
-  In (fv, vv, p) (fetches (snd (realise C dk (OnDisk f v sh)))) -> fv = f /\ vv = v.
+Lemma realise_fetches C dk f v sh d fv vv p :
+  In (fv, vv, p) (fetches (snd (realise C dk (OnDisk f v sh d)))) -> fv = f /\ vv = v.
 Proof.
   unfold realise, fa_get. destruct (dk f v) as [a|]; [|simpl; tauto].
   destruct (positions_all sh (full_ps sh)) as [poss|e]; simpl.
@@ -598,8 +725,8 @@ Lemma read_var_fetches C dk f d fv vv p :
   fv = f /\ vv = vd_var d /\ read_fetches d = true.
 Proof.
   unfold read_var. destruct (read_fetches d) eqn:E; [|simpl; tauto].
-  pose proof (realise_fetches C dk f (vd_var d) (vd_shape d) fv vv p) as H.
-  destruct (realise C dk (OnDisk f (vd_var d) (vd_shape d))) as [[a|e] t]; cbn [snd] in *.
+  pose proof (realise_fetches C dk f (vd_var d) (vd_shape d) (declared_of C dk f d) fv vv p) as H.
+  destruct (realise C dk (OnDisk f (vd_var d) (vd_shape d) (declared_of C dk f d))) as [[[ty a]|e] t]; cbn [snd] in *.
   - destruct (vd_role d); cbn [snd]; intros Hin; destruct (H Hin); auto.
   - intros Hin; destruct (H Hin); auto.
 Qed.
@@ -640,20 +767,20 @@ Qed.
 
 Lemma read_var_cells C dk f d :
   vd_role d <> RScalarCoord -> vd_role d <> RNodeCoord ->
-  fst (read_var C dk f d) = [OnDisk f (vd_var d) (vd_shape d)].
+  fst (read_var C dk f d) = [OnDisk f (vd_var d) (vd_shape d) (declared_of C dk f d)].
 Proof.
   intros H1 H2. unfold read_var. destruct (read_fetches d); [|reflexivity].
-  destruct (realise C dk _) as [[a|e] t]; [|reflexivity].
+  destruct (realise C dk _) as [[[ty a]|e] t]; [|reflexivity].
   destruct (vd_role d); try reflexivity; congruence.
 Qed.
 
 (* after read, every other variable is still on disk *)
 Theorem read_on_disk C dk f ds d :
   In d ds -> vd_role d <> RScalarCoord -> vd_role d <> RNodeCoord ->
-  In (OnDisk f (vd_var d) (vd_shape d)) (fst (read C dk f ds)).
+  In (OnDisk f (vd_var d) (vd_shape d) (declared_of C dk f d)) (fst (read C dk f ds)).
 Proof.
   intros Hin H1 H2. unfold read.
-  assert (H : In (OnDisk f (vd_var d) (vd_shape d)) (fst (read_vars C dk f ds))).
+  assert (H : In (OnDisk f (vd_var d) (vd_shape d) (declared_of C dk f d)) (fst (read_vars C dk f ds))).
   { induction ds as [|d0 r IH]; [contradiction|]. simpl.
     pose proof (read_var_cells C dk f d0) as Hc.
     destruct (read_var C dk f d0) as [c t]. destruct (read_vars C dk f r) as [cs ts].
@@ -667,8 +794,8 @@ Lemma read_var_scan C dk f d o :
   c_close_on_error C = true -> scan o (snd (read_var C dk f d)) = Some o.
 Proof.
   intros Hc. unfold read_var. destruct (read_fetches d); [|reflexivity].
-  pose proof (realise_scan C dk (OnDisk f (vd_var d) (vd_shape d)) o Hc) as H.
-  destruct (realise C dk _) as [[a|e] t]; cbn [snd] in *; [|exact H].
+  pose proof (realise_scan C dk (OnDisk f (vd_var d) (vd_shape d) (declared_of C dk f d)) o Hc) as H.
+  destruct (realise C dk _) as [[[ty a]|e] t]; cbn [snd] in *; [|exact H].
   destruct (vd_role d); exact H.
 Qed.
 
@@ -702,13 +829,31 @@ Qed.
 (* ------------------------------------------------------------------------- *)
 (* witnesses                                                                   *)
 (* ------------------------------------------------------------------------- *)
-Definition dk_ex : disk :=
-  lookup2 [(0, 0, reshape [3%nat; 4%nat] (map Some [0;1;2;3;4;5;6;7;8;9;10;11]));
-           (0, 1, reshape [] [Some 5]);
-           (0, 2, reshape [2%nat] [Some 3; Some 4]);
-           (0, 3, reshape [2%nat] [Some 2; Some 2])].
+Definition mk_stored (d : dt) (p : pack) (sh : list nat) (fl : list Z) : stored :=
+  {| s_dt := d; s_pack := p; s_raw := reshape sh (map Some fl) |}.
 
-Definition heap_ex : list cell := [OnDisk 0 0 [3; 4]].
+Definition pack_ex : pack := {| p_unsigned := false; p_scale := Some (F4, 2); p_offset := Some (F8, 0) |}.
+Definition pack_sf : pack := {| p_unsigned := false; p_scale := Some (F4, 2); p_offset := None |}.
+
+(* variable 0: a short data variable packed with a float32 scale_factor 2 and a
+   float64 add_offset 0; 1-3: plain integers; 4: a packed coordinate variable;
+   5: signed bytes to be taken as unsigned *)
+Definition dk_ex : disk :=
+  lookup2 [(0, 0, mk_stored I2 pack_ex [3%nat; 4%nat] [0;1;2;3;4;5;6;7;8;9;10;11]);
+           (0, 1, mk_stored I4 no_pack [] [5]);
+           (0, 2, mk_stored I4 no_pack [2%nat] [3; 4]);
+           (0, 3, mk_stored I4 no_pack [2%nat] [2; 2]);
+           (0, 4, mk_stored I2 pack_sf [3%nat] [1; 2; 3]);
+           (0, 5, mk_stored I1 {| p_unsigned := true; p_scale := None; p_offset := None |} [2%nat] [-1; 3])].
+
+Definition heap_ex : list cell := [OnDisk 0 0 [3; 4] F8].
+
+Lemma heap_ex_ok : Forall (cell_ok dk_ex) heap_ex.
+Proof.
+  constructor; [|constructor]. split; [repeat constructor; lia|].
+  intros a H. vm_compute in H. inversion H; subst. vm_compute.
+  repeat split; repeat constructor.
+Qed.
 
 (* a 3 x 4 variable indexed with an out-of-range list: with the code as it was,
    the file is still open after the failed access and after the next access *)
@@ -716,11 +861,8 @@ Lemma balanced_old_refuted :
   exists dk h ops, Forall (cell_ok dk) h /\
     scan [] (concat (map snd (run cfg_nc4_old dk h ops))) <> Some [].
 Proof.
-  exists dk_ex, heap_ex, [OSub 0 [IList [0; 9]]; OArr 0]. split.
-  - constructor; [|constructor]. split; [repeat constructor; lia|].
-    intros a H. vm_compute in H. inversion H; subst. vm_compute.
-    repeat split; repeat constructor.
-  - vm_compute. discriminate.
+  exists dk_ex, heap_ex, [OSub 0 [IList [0; 9]]; OArr 0]. split; [exact heap_ex_ok|].
+  vm_compute. discriminate.
 Qed.
 
 (* the same history with the repaired code, non-vacuity of run_balanced *)
@@ -747,24 +889,22 @@ Qed.
 Lemma read_example :
   fetched_vars (snd (read cfg_nc4 dk_ex 0 ds_geometry)) = [1; 2; 3] /\
   fst (read cfg_nc4 dk_ex 0 ds_geometry) =
-    [OnDisk 0 0 [3; 4]; InMem [1] (Node [Leaf (Some 5)]); OnDisk 0 2 [2]; OnDisk 0 3 [2]].
+    [OnDisk 0 0 [3; 4] F8; InMem [1] I4 (Node [Leaf (Some 5)]); OnDisk 0 2 [2] I4; OnDisk 0 3 [2] I4].
 Proof. vm_compute. split; reflexivity. Qed.
 
-(* non-vacuity of run_denote / sub_fetch_only: a history with real work *)
+(* non-vacuity of run_denote / sub_fetch_only: a history with real work on packed
+   data (values 2 x + 0, float64), ending with "equal to its own copy in memory" *)
 Lemma denote_example :
   Forall (cell_ok dk_ex) heap_ex /\
   map fst (run cfg_h5 dk_ex heap_ex
-             [OSub 0 [IList [2; 0; 2]; ISlice None None (Some (-3))]; OArr 1; OSet 1 [IInt 0] None; OFirst 1; OEq 0 1]) =
-  [ONone; OArray [3; 2] [Some 11; Some 8; Some 3; Some 0; Some 11; Some 8]; ONone; OArray [] [None]; OBool false].
-Proof.
-  split.
-  - constructor; [|constructor]. split; [repeat constructor; lia|].
-    intros a H. vm_compute in H. inversion H; subst. vm_compute. repeat split; repeat constructor.
-  - vm_compute. reflexivity.
-Qed.
+             [OSub 0 [IList [2; 0; 2]; ISlice None None (Some (-3))]; OArr 1; OSet 1 [IInt 0] None; OFirst 1; OEq 0 1;
+              OCopy 0; OToMem 2; OEq 0 2]) =
+  [ONone; OArray [3; 2] F8 [Some 22; Some 16; Some 6; Some 0; Some 22; Some 16]; ONone; OArray [] F8 [None]; OBool false;
+   ONone; ONone; OBool true].
+Proof. split; [exact heap_ex_ok|]. vm_compute. reflexivity. Qed.
 
-Lemma in_memory_no_file_access C dk sh a idx :
-  snd (sub C dk (InMem sh a) idx) = [] /\ snd (realise C dk (InMem sh a)) = [].
+Lemma in_memory_no_file_access C dk sh d a idx :
+  snd (sub C dk (InMem sh d a) idx) = [] /\ snd (realise C dk (InMem sh d a)) = [].
 Proof. split; reflexivity. Qed.
 
 Lemma h5_reads_increasing l :
@@ -773,3 +913,161 @@ Proof. split; [apply uniq_sorted_increasing|intros x; apply uniq_sorted_in]. Qed
 
 Lemma backends_agree dk h ops : run cfg_nc4 dk h ops = run cfg_h5 dk h ops.
 Proof. apply run_blind. apply same_backend_nc4_h5. Qed.
+
+(* ------------------------------------------------------------------------- *)
+(* read declares the data type the data will have in memory                    *)
+(* ------------------------------------------------------------------------- *)
+(* the description of a dataset matches what is on disk *)
+Definition vdesc_ok (dk : disk) (f : Z) (d : vdesc) : Prop :=
+  Forall (fun n => 0 <= n) (vd_shape d) /\
+  exists st, dk f (vd_var d) = Some st /\ shaped (map Z.to_nat (vd_shape d)) (s_raw st).
+
+Definition declares_realised (C : cfg) : Prop :=
+  forall b v p, c_declare C b v p = realised_dt v p.
+
+Lemma declares_realised_nc4 : declares_realised cfg_nc4.
+Proof. intros b v p. reflexivity. Qed.
+
+Lemma declares_realised_h5 : declares_realised cfg_h5.
+Proof. intros b v p. reflexivity. Qed.
+
+Lemma declared_cell_ok C dk f d :
+  declares_realised C -> vdesc_ok dk f d ->
+  cell_ok dk (OnDisk f (vd_var d) (vd_shape d) (declared_of C dk f d)).
+Proof.
+  intros HC [Hnn [st [E Hsh]]]. split; [exact Hnn|].
+  intros st' E'. rewrite E in E'. inversion E'; subst st'. split; [exact Hsh|].
+  unfold declared_of. rewrite E. apply HC.
+Qed.
+
+Lemma read_var_cells_ok C dk f d :
+  declares_realised C -> vdesc_ok dk f d -> Forall (cell_ok dk) (fst (read_var C dk f d)).
+Proof.
+  intros HC Hd. pose proof (declared_cell_ok C dk f d HC Hd) as Hc. unfold read_var.
+  destruct (read_fetches d); [|constructor; [exact Hc|constructor]].
+  destruct (realise C dk _) as [[[ty a]|e] t]; [|constructor; [exact Hc|constructor]].
+  destruct (vd_role d); (constructor; [first [exact Hc|exact I]|constructor]).
+Qed.
+
+(* every object read returns declares the data type its data will have in memory *)
+Theorem read_cells_ok C dk f ds :
+  declares_realised C -> Forall (vdesc_ok dk f) ds -> Forall (cell_ok dk) (fst (read C dk f ds)).
+Proof.
+  intros HC Hds. unfold read.
+  assert (H : Forall (cell_ok dk) (fst (read_vars C dk f ds))).
+  { induction Hds as [|d r Hd Hr IH]; simpl; [constructor|].
+    pose proof (read_var_cells_ok C dk f d HC Hd) as Hv.
+    destruct (read_var C dk f d) as [c t]. destruct (read_vars C dk f r) as [cs ts].
+    cbn [fst] in *. apply Forall_app. split; assumption. }
+  destruct (read_vars C dk f ds) as [cs t]. exact H.
+Qed.
+
+(* ... so every history on what read returned shows what eager access shows,
+   data types included: bringing data into memory changes no result *)
+Theorem read_then_lazy_is_eager C dk f ds ops :
+  declares_realised C -> fetch_ok C dk -> Forall (vdesc_ok dk f) ds ->
+  map fst (run C dk (fst (read C dk f ds)) ops) = vrun (map (val dk) (fst (read C dk f ds))) ops.
+Proof. intros HC Hf Hds. apply run_denote; [apply read_cells_ok; assumption|exact Hf]. Qed.
+
+(* and x.equals(copy of x brought into memory) is True, for every object whose
+   declared data type is right - in particular for everything read returns *)
+Lemma vrun_copy_eq (H : list vcell) i sh d a :
+  nth_error H i = Some (sh, d, Some a) ->
+  vrun H [OCopy i; OToMem (length H); OEq i (length H)] = [ONone; ONone; OBool true].
+Proof.
+  intros E.
+  assert (Hi : (i < length H)%nat) by (apply nth_error_Some; congruence).
+  assert (E1 : nth_error (H ++ (@cons vcell (sh, d, Some a) (@nil vcell))) (length H) = Some (sh, d, Some a)).
+  { rewrite nth_error_app2 by lia. rewrite Nat.sub_diag. reflexivity. }
+  assert (E2 : nth_error (H ++ (@cons vcell (sh, d, Some a) (@nil vcell))) i = Some (sh, d, Some a)).
+  { rewrite nth_error_app1 by exact Hi. exact E. }
+  assert (E3 : set_at (length H) (sh, d, Some a) (H ++ (@cons vcell (sh, d, Some a) (@nil vcell))) = H ++ (@cons vcell (sh, d, Some a) (@nil vcell))).
+  { clear. induction H as [|z r IH]; simpl; [reflexivity|]. f_equal. exact IH. }
+  assert (E4 : Nat.eqb i (length H) = false) by (apply Nat.eqb_neq; lia).
+  assert (R1 : list_eqb Z.eqb sh sh = true).
+  { clear. induction sh as [|x r IH]; simpl; [reflexivity|]. rewrite Z.eqb_refl. exact IH. }
+  assert (R2 : dt_eqb d d = true) by (unfold dt_eqb; apply Z.eqb_refl).
+  assert (R3 : forall l, list_eqb oz_eqb l l = true).
+  { induction l as [|x r IH]; simpl; [reflexivity|]. rewrite IH.
+    destruct x as [z|]; simpl; [rewrite Z.eqb_refl|]; reflexivity. }
+  cbn [vrun vstep]. rewrite E. cbn [vrun vstep]. rewrite E1. cbn [vrun vstep vreal snd fst].
+  rewrite E3. cbn [vrun vstep]. rewrite E2, E1, E4. unfold vshape, vdtype. cbn [fst snd vreal].
+  rewrite R1, R2, R3. reflexivity.
+Qed.
+
+Theorem equals_own_memory_copy C dk h i c :
+  Forall (cell_ok dk) h -> fetch_ok C dk ->
+  nth_error h i = Some c -> content dk c <> None ->
+  map fst (run C dk h [OCopy i; OToMem (length h); OEq i (length h)]) = [ONone; ONone; OBool true].
+Proof.
+  intros Hok Hf E Hc. rewrite run_denote by assumption.
+  assert (Hv : exists sh d a, val dk c = (sh, d, Some a)).
+  { destruct c as [f0 v0 sh0 d0|sh0 d0 a0]; simpl in *; [|eauto].
+    destruct (dk f0 v0); [eauto|congruence]. }
+  destruct Hv as [sh [d [a Hv]]].
+  rewrite <- (map_length (val dk) h). apply (vrun_copy_eq _ i sh d a).
+  rewrite nth_error_map, E. simpl. rewrite Hv. reflexivity.
+Qed.
+
+Theorem read_equals_own_memory_copy C dk f ds i c :
+  declares_realised C -> fetch_ok C dk -> Forall (vdesc_ok dk f) ds ->
+  nth_error (fst (read C dk f ds)) i = Some c -> content dk c <> None ->
+  map fst (run C dk (fst (read C dk f ds))
+             [OCopy i; OToMem (length (fst (read C dk f ds))); OEq i (length (fst (read C dk f ds)))]) =
+  [ONone; ONone; OBool true].
+Proof.
+  intros HC Hf Hds E Hc. eapply equals_own_memory_copy; eauto. apply read_cells_ok; assumption.
+Qed.
+
+(* the code as it was: a packed coordinate variable (short, float32 scale_factor)
+   declares int16 and becomes float32 in memory; a data variable whose
+   scale_factor is 1 (float32) and add_offset 0 (float64) declares float64 and
+   becomes float32; signed bytes marked _Unsigned declare int8 and become uint8.
+   Each object then differs from its own copy in memory. *)
+Definition ds_packed : list vdesc :=
+  [{| vd_var := 0; vd_shape := [3; 4]; vd_role := RData |};
+   {| vd_var := 4; vd_shape := [3]; vd_role := RCoord |};
+   {| vd_var := 5; vd_shape := [2]; vd_role := RCoord |}].
+
+Definition dk_trivial : disk :=
+  lookup2 [(0, 0, mk_stored I2 {| p_unsigned := false; p_scale := Some (F4, 1); p_offset := Some (F8, 0) |}
+                            [2%nat] [7; 8])].
+
+Lemma ds_packed_ok : Forall (vdesc_ok dk_ex 0) ds_packed.
+Proof.
+  repeat constructor; try lia; eexists; (split; [vm_compute; reflexivity|]); vm_compute;
+    repeat split; repeat constructor.
+Qed.
+
+Lemma declared_old_refuted :
+  Forall (vdesc_ok dk_ex 0) ds_packed /\ fetch_ok cfg_nc4_old2 dk_ex /\
+  map cdtype (fst (read cfg_nc4_old2 dk_ex 0 ds_packed)) = [F8; I2; I1] /\
+  map (fun c => vdtype (val dk_ex c)) (fst (read cfg_nc4_old2 dk_ex 0 ds_packed)) = [F8; F4; U1] /\
+  map fst (run cfg_nc4_old2 dk_ex (fst (read cfg_nc4_old2 dk_ex 0 ds_packed))
+             [OCopy 1; OToMem 3; OEq 1 3; OCopy 2; OToMem 4; OEq 2 4]) =
+    [ONone; ONone; OBool false; ONone; ONone; OBool false] /\
+  vrun (map (val dk_ex) (fst (read cfg_nc4_old2 dk_ex 0 ds_packed)))
+             [OCopy 1; OToMem 3; OEq 1 3; OCopy 2; OToMem 4; OEq 2 4] =
+    [ONone; ONone; OBool true; ONone; ONone; OBool true] /\
+  (let ds := [{| vd_var := 0; vd_shape := [2]; vd_role := RData |}] in
+   Forall (vdesc_ok dk_trivial 0) ds /\
+   map fst (run cfg_nc4_old2 dk_trivial (fst (read cfg_nc4_old2 dk_trivial 0 ds)) [OCopy 0; OToMem 1; OEq 0 1; OArr 0]) =
+     [ONone; ONone; OBool false; OArray [2] F4 [Some 7; Some 8]] /\
+   map cdtype (fst (read cfg_nc4_old2 dk_trivial 0 ds)) = [F8]).
+Proof.
+  split; [exact ds_packed_ok|]. split; [intros f v a poss _; reflexivity|].
+  split; [vm_compute; reflexivity|]. split; [vm_compute; reflexivity|].
+  split; [vm_compute; reflexivity|]. split; [vm_compute; reflexivity|].
+  cbn zeta. split; [|split; vm_compute; reflexivity].
+  repeat constructor; try lia. eexists; (split; [vm_compute; reflexivity|]); vm_compute;
+    repeat split; repeat constructor.
+Qed.
+
+(* the same three objects with the repaired code *)
+Lemma declared_example :
+  map cdtype (fst (read cfg_nc4 dk_ex 0 ds_packed)) = [F8; F4; U1] /\
+  map fst (run cfg_h5 dk_ex (fst (read cfg_h5 dk_ex 0 ds_packed))
+             [OCopy 1; OToMem 3; OEq 1 3; OCopy 2; OToMem 4; OEq 2 4; OArr 1; OArr 2]) =
+    [ONone; ONone; OBool true; ONone; ONone; OBool true;
+     OArray [3] F4 [Some 2; Some 4; Some 6]; OArray [2] U1 [Some 255; Some 3]].
+Proof. split; vm_compute; reflexivity. Qed.
